@@ -15,11 +15,11 @@ BOUNDARY_LENS = [1, 2, 3, 5, 72, 73, 74, 75, 76, 146, 147, 148, 149, 150, 221, 2
 SMALL_LENS = [1, 2, 3, 4, 5, 8]
 
 NOT_BAR = [b for b in range(256) if b != 0x7C]
-AROUND_BAR = [0x7A, 0x7B, 0x7D, 0x7E, 0x7F, 0x00, 0xFF, 0x2F]
+AROUND_BAR = [0x7A, 0x7B, 0x7D, 0x7E, 0x7F, 0x00, 0xFF, 0x2F, 0x0A, 0x0D]
 
 ADVERSARIAL_BODIES = [
     b"", b"a", b"b", b"s:http", b"s:https", b"xs:http", b"s:http|"[:-1] + b"x", b"h:", b"h:www", b"h:com",
-    b"~", b"}", b"\x00", b"\xff", b"\x7f", b"a}", b"a!", b"a\x00", b"A", b"www",
+    b"~", b"}", b"\x00", b"\xff", b"\x7f", b"a}", b"a!", b"a\x00", b"A", b"www", b"a\nb", b"\n", b"a\r\nb", b" ", b"a b",
 ]
 
 
